@@ -22,7 +22,8 @@ TRUSTED = [
 
 def p_C04(res, facts, tier):
     from .rules import midi
-    midi.check_frame(res, facts)
+    # C04 quantifies over streams of note / All-Notes-Off messages of the listened channel only: what other messages do is
+    # C05's ("never otherwise") and C06's business, not judged here
     n = midi.check_edges_and_held(res, facts, 'C04')
     res.floor('held_partitions', n, 60)
     midi.check_setters(res, facts)
